@@ -70,7 +70,19 @@ func orMap(m map[string]bool) map[string]bool {
 func (g *gen) dynNum() AVal {
 	for {
 		var t string
-		switch g.rnd.Intn(8) {
+		switch g.rnd.Intn(10) {
+		case 8: // power of two or ten, or a neighbour
+			b := new(big.Int).Lsh(big.NewInt(1), uint(1+g.rnd.Intn(66)))
+			if g.rnd.Intn(2) == 0 {
+				b = new(big.Int).Exp(big.NewInt(10), big.NewInt(int64(1+g.rnd.Intn(21))), nil)
+			}
+			b.Add(b, big.NewInt(int64(g.rnd.Intn(3)-1)))
+			if g.rnd.Intn(2) == 0 {
+				b.Neg(b)
+			}
+			t = b.String()
+		case 9: // dense small ints
+			t = strconv.Itoa(g.rnd.Intn(1401) - 300)
 		case 0: // machine int
 			t = strconv.FormatInt(g.rnd.Int63n(1<<62)-(1<<61), 10)
 		case 1: // small int
@@ -242,6 +254,56 @@ func (g *gen) draw() AVal {
 		return g.value(2, 8, false, true)
 	}
 	return g.value(5, 2, false, true)
+}
+
+// sweepNumbers lists the texts (for the real constructor vals.ParseNum) of the dense number sweep.
+func sweepNumbers() []string {
+	var out []string
+	seen := map[string]bool{}
+	add := func(b *big.Int) {
+		for _, d := range []int64{-1, 0, 1} {
+			for _, sign := range []int64{1, -1} {
+				x := new(big.Int).Add(b, big.NewInt(d))
+				x.Mul(x, big.NewInt(sign))
+				if t := x.String(); !seen[t] {
+					seen[t] = true
+					out = append(out, t)
+				}
+			}
+		}
+	}
+	for i := -300; i <= 1100; i++ {
+		t := strconv.Itoa(i)
+		seen[t] = true
+		out = append(out, t)
+	}
+	for k := uint(1); k <= 66; k++ {
+		add(new(big.Int).Lsh(big.NewInt(1), k))
+	}
+	for k := int64(1); k <= 21; k++ {
+		add(new(big.Int).Exp(big.NewInt(10), big.NewInt(k), nil))
+	}
+	return out
+}
+
+// sweepCases: every sweep number n as the values  n  and  [n [&n=x] [&x=n]].
+func sweepCases() []caseIn {
+	var out []caseIn
+	x := atom("str", "s:bare")
+	for _, t := range sweepNumbers() {
+		n := atom("dnum", "n:1")
+		dn := map[string]string{"n:1": t}
+		if real := vals.ParseNum(t); real != nil {
+			for _, na := range numAtoms { // a pool atom is used under its own name
+				if sameNum(numReal[na.name], real) {
+					n, dn = atom("num", na.name), nil
+				}
+			}
+		}
+		out = append(out, caseIn{Src: "sweep", V: n, DNum: dn},
+			caseIn{Src: "sweep", V: aList(n, aMap([2]AVal{n, x}), aMap([2]AVal{x, n})), DNum: dn})
+	}
+	return out
 }
 
 // probes are directed cases around the known finding: two keys that are not eq but rank equal in
